@@ -29,7 +29,7 @@ from __future__ import with_statement
 from bisect import bisect_left
 from threading import Lock
 
-from whoosh.compat import xrange
+from whoosh.compat import bytes_type, xrange
 from whoosh.codec import base
 from whoosh.matching import ListMatcher
 from whoosh.reading import SegmentReader, TermInfo, TermNotFound
@@ -269,6 +269,46 @@ class MemFieldWriter(base.FieldWriter):
         self.is_closed = True
 
 
+class MemFieldCursor(base.FieldCursor):
+    # A cursor over the sorted terms of one field (what the fuzzy term
+    # expansion of a segment reader walks)
+
+    def __init__(self, terms, terminfos, fieldname, fieldobj):
+        self._terms = terms
+        self._terminfos = terminfos
+        self._fieldname = fieldname
+        self._fieldobj = fieldobj
+        self._i = 0
+
+    def first(self):
+        self._i = 0
+        return self.text()
+
+    def find(self, term):
+        if not isinstance(term, bytes_type):
+            term = self._fieldobj.to_bytes(term)
+        self._i = bisect_left(self._terms, term)
+        return self.text()
+
+    def next(self):
+        if self._i < len(self._terms):
+            self._i += 1
+        return self.text()
+
+    def text(self):
+        if self._i < len(self._terms):
+            return self._fieldobj.from_bytes(self._terms[self._i])
+        return None
+
+    def term_info(self):
+        if self._i < len(self._terms):
+            return self._terminfos[self._fieldname, self._terms[self._i]]
+        return None
+
+    def is_valid(self):
+        return self._i < len(self._terms)
+
+
 class MemTermsReader(base.TermsReader):
     def __init__(self, storage, segment):
         self._storage = storage
@@ -277,6 +317,11 @@ class MemTermsReader(base.TermsReader):
 
     def __contains__(self, term):
         return term in self._segment._terminfos
+
+    def cursor(self, fieldname, fieldobj):
+        terms = sorted(self._invindex.get(fieldname, ()))
+        return MemFieldCursor(terms, self._segment._terminfos, fieldname,
+                              fieldobj)
 
     def terms(self):
         # In lexical order, like every other terms reader (the readers that
